@@ -31,7 +31,7 @@ impl PathT {
     }
 }
 
-#[derive(Clone, Debug, PartialEq)]
+#[derive(Clone, Copy, Debug, PartialEq)]
 pub enum AsWidth {
     W16,
     W32,
